@@ -104,6 +104,13 @@ func localFingerprints(fn *ssa.Function) map[string]string {
 			}
 		}
 	}
+	// captured variables of a function literal: identified by their position
+	for i, fv := range fn.FreeVars {
+		if sets[fv.Name()] == nil {
+			sets[fv.Name()] = map[string]bool{}
+		}
+		sets[fv.Name()][fmt.Sprintf("FreeVar|%s#%d", typeStr(fv.Type()), i)] = true
+	}
 	out := map[string]string{}
 	for n, s := range sets {
 		var l []string
